@@ -22,13 +22,16 @@ PROPS = {
                 {"harness": RT + "c08_reset_then_call", "fn": "src/runtime.rs :: Runtime::{reset_call_limit, increment_call_limit}"},
             ]},
             {"kind": "verus", "unit": "tail"},
+            {"kind": "verus", "unit": "budget"},
+            {"kind": "verus", "unit": "seqsearch"},
         ],
         "unreached": [
-            "RuntimeLimits::search_iter and the searching builtins (iterator towers / native closures)",
+            "the searching builtins other than the scan loops of sequence take_while / skip_until (nth, generator consumers, find ...): that each consumes one permit per element examined",
             "that every route by which library code calls a user function goes through eval_func_with_values (argued from visibility, not proved)",
             "from_template: that the depth test precedes the evaluation of the declarations (only the height computation and the test itself are under contract)",
         ],
-        "assumptions": ["an evaluation performs fewer than 2^64 consecutive tail calls / nested frames (usize counters)"],
+        "assumptions": ["an evaluation performs fewer than 2^64 consecutive tail calls / nested frames (usize counters)",
+                        "V-budget: std's repeat_with / take / chain / once, either::Either and Zip by their documented meaning (stream model: length and item at each index); V-seqsearch: iterator model of V-derive, the budget stream restated for finite streams (budget_shape)"],
     },
     "C06": {
         "level": "other",
@@ -106,6 +109,7 @@ PROPS = {
         "units": [
             {"kind": "verus", "unit": "seq"},
             {"kind": "verus", "unit": "comb"},
+            {"kind": "verus", "unit": "seqsearch"},
         ],
         "unreached": [
             "XSequence::{chain, value_to_idx}, get on Chain (partition_point), len on Chain/Map/Zip (macros over dyn Any downcasts, Cow, iterator chains: outside Verus' dialect; BigInt promotion closure makes them intractable for CBMC)",
@@ -189,9 +193,9 @@ PROPS = {
 CLAIMS = {
     "C08": {
         "engine": "kani",
-        "technique": "contract-based deductive verification: Kani (CBMC) loop-free full-domain harnesses in contract form on the real Runtime limit primitives; Verus contract with a ghost call history on the trampoline and the depth computation",
-        "text": "Each limit primitive of src/runtime.rs is checked against its one-step contract for every value of the counter and of the limit (loop-free harness over full-width symbolic scalars = complete proof of that function's contract); the trampoline is proved to count the user call and check the timeout exactly once before any frame is built and to fail with MaximumRecursion exactly when the tail-call count exceeds the limit; the frame height and the depth test are proved as stated.",
-        "note": "Decides the counters and their reset only; that every call path goes through them is argued from visibility, not proved. Trusted: Kani/CBMC, the in-crate build substitutions.",
+        "technique": "contract-based deductive verification: Kani (CBMC) loop-free full-domain harnesses in contract form on the real Runtime limit primitives; Verus contracts with a ghost call history on the trampoline and the depth computation, on RuntimeLimits::search_iter / search (stream model of std's adaptors) and on the scan loops of sequence take_while / skip_until",
+        "text": "Each limit primitive of src/runtime.rs is checked against its one-step contract for every value of the counter and of the limit (loop-free harness over full-width symbolic scalars = complete proof of that function's contract); the trampoline is proved to count the user call and check the timeout exactly once before any frame is built and to fail with MaximumRecursion exactly when the tail-call count exceeds the limit; the frame height and the depth test are proved as stated. The search budget is proved to be exactly L permits followed by one MaximumSearch violation (endless without a limit), `search` to pair the k-th element with the k-th budget item, and the scan loops of sequence take_while / skip_until to consume a permit before each element they examine.",
+        "note": "Decides the counters, their reset, the budget stream and two scan loops; that every call path goes through them is argued from visibility, not proved. Trusted: Kani/CBMC, the in-crate build substitutions.",
     },
     "C06": {
         "engine": "vx+verus",
